@@ -24,6 +24,7 @@ fn main() {
     let cmd = args.get(1).map(|s| s.as_str()).unwrap_or("");
     let code = match cmd {
         "g1" => cmd_g1(&args),
+        "g4" => cmd_g4(&args),
         "replay" => cmd_replay(&args),
         "policy" => cmd_simple(&args, "policy"),
         "limits" => cmd_simple(&args, "limits"),
@@ -141,6 +142,196 @@ fn cmd_g1(args: &[String]) -> i32 {
         println!("{}", serde_json::to_string_pretty(&report).unwrap());
     }
     code
+}
+
+/// G4: crash-point enumerator. For every generated program: fault-free run, then one run per
+/// (callback kind, invocation index) with that invocation panicking, then sampled pairs of faults.
+fn cmd_g4(args: &[String]) -> i32 {
+    use proptest::strategy::{Strategy, ValueTree};
+    let prop = arg(args, "--prop").unwrap_or("C07").to_string();
+    let profile = gen::profile(arg(args, "--profile").unwrap_or("general"));
+    let programs: u32 = arg(args, "--cases").and_then(|s| s.parse().ok()).unwrap_or(100);
+    let pairs: u32 = arg(args, "--pairs").and_then(|s| s.parse().ok()).unwrap_or(8);
+    let seed: u64 = arg(args, "--seed").and_then(|s| s.parse().ok()).unwrap_or(1);
+    let out = arg(args, "--out").map(|s| s.to_string());
+    let replay_out = arg(args, "--replay-out").map(|s| s.to_string());
+    let cfg_name = arg(args, "--config-name").unwrap_or("?").to_string();
+    let known: Vec<String> = arg(args, "--known").map(|s| load_known(s, &prop)).unwrap_or_default();
+    if let Some(r) = &replay_out {
+        rccv::crash::install(r);
+    }
+    let opts = RunOpts { strict: false, logging: false, known: known.clone(), quiesce_mid: false, timeout_s: 20, persist: replay_out.is_some(), prop: prop.clone(), config: cfg_name.clone() };
+    let mut acc = Acc::new(&prop);
+    let mut runner = TestRunner::new(Config { cases: programs, failure_persistence: None, rng_algorithm: RngAlgorithm::ChaCha, rng_seed: RngSeed::Fixed(seed), ..Config::default() });
+    let strat = gen::case(&profile, 0);
+    let mut crash_points = 0u64;
+    let mut pair_runs = 0u64;
+    let mut fully_enumerated = 0u64;
+    let mut failing: Option<(Case, String)> = None;
+    // simple deterministic generator for the sampled pairs
+    let mut lcg = seed.wrapping_mul(0x9E3779B97F4A7C15) | 1;
+    let mut next = |n: u32| -> u32 {
+        lcg = lcg.wrapping_mul(6364136223846793005).wrapping_add(1442695040888963407);
+        ((lcg >> 33) as u32) % n.max(1)
+    };
+    'outer: for _ in 0..programs {
+        let tree = match strat.new_tree(&mut runner) {
+            Ok(t) => t,
+            Err(_) => break,
+        };
+        let (base, _) = tree.current();
+        let run = |c: &Case, acc: &mut Acc| -> Result<CaseResult, String> {
+            acc.evaluations += 1;
+            match run_case(c, &opts) {
+                Outcome::Hang => {
+                    acc.hangs += 1;
+                    acc.hang_case = Some(c.clone());
+                    Err("HANG".into())
+                }
+                Outcome::Done(r) => match acc.absorb(c, &r) {
+                    Some(v) => Err(v.sig),
+                    None => Ok(r),
+                },
+            }
+        };
+        let r0 = match run(&base, &mut acc) {
+            Ok(r) => r,
+            Err(sig) => {
+                failing = Some((base.clone(), sig));
+                break 'outer;
+            }
+        };
+        let counts = r0.stats.counts;
+        let mut full = true;
+        let mut singles: Vec<(Fault, [u32; NKINDS])> = Vec::new();
+        for kind in KINDS {
+            let n = counts[kind.idx()];
+            if n > 64 {
+                full = false;
+            }
+            for k in 0..n.min(64) {
+                let f = Fault { kind, nth: k };
+                let c = Case { auto: base.auto, ops: base.ops.clone(), faults: vec![f] };
+                crash_points += 1;
+                match run(&c, &mut acc) {
+                    Ok(r) => singles.push((f, r.stats.counts)),
+                    Err(sig) => {
+                        failing = Some((c, sig));
+                        break 'outer;
+                    }
+                }
+            }
+        }
+        if full {
+            fully_enumerated += 1;
+        }
+        // two successive faults: the second one is placed in the run that already has the first
+        for _ in 0..pairs {
+            if singles.is_empty() {
+                break;
+            }
+            let (f1, c1) = singles[next(singles.len() as u32) as usize];
+            let kind2 = KINDS[next(NKINDS as u32) as usize];
+            let n2 = c1[kind2.idx()];
+            if n2 == 0 {
+                continue;
+            }
+            let f2 = Fault { kind: kind2, nth: next(n2) };
+            if f2 == f1 {
+                continue;
+            }
+            let c = Case { auto: base.auto, ops: base.ops.clone(), faults: vec![f1, f2] };
+            pair_runs += 1;
+            if let Err(sig) = run(&c, &mut acc) {
+                failing = Some((c, sig));
+                break 'outer;
+            }
+        }
+    }
+    let mut code = 0;
+    let mut violation = serde_json::Value::Null;
+    if let Some((case, sig)) = failing {
+        if sig == "HANG" {
+            code = 2;
+            violation = json!({"hang": true, "case": case});
+        } else {
+            code = 1;
+            acc.frozen = true;
+            // shrink: drop operations while some crash point of the shorter program still fails
+            let small = shrink_g4(case, &opts, &prop);
+            let res = match run_case(&small, &RunOpts { logging: true, ..opts.clone() }) {
+                Outcome::Done(r) => Some(r),
+                Outcome::Hang => None,
+            };
+            let vio: Vec<_> = res.as_ref().map(|r| r.violations.clone()).unwrap_or_default();
+            let sig2 = vio.iter().find(|v| v.props.iter().any(|p| p == &prop)).map(|v| v.sig.clone()).unwrap_or(sig);
+            let replay = json!({"property": prop, "engine": "g4", "kind": "heap", "configuration": cfg_name, "profile": profile.name, "case": small,
+                "signature": sig2, "violations": vio, "log": res.as_ref().map(|r| r.log.clone()).unwrap_or_default()});
+            if let Some(path) = &replay_out {
+                let _ = std::fs::write(path, serde_json::to_string_pretty(&replay).unwrap());
+            }
+            violation = json!({"signature": sig2, "replay": replay_out, "violations": vio});
+        }
+    }
+    if acc.harness_errors > 0 {
+        code = 2;
+    }
+    let report = acc.report(json!({"engine": "g4", "profile": profile.name, "config": cfg_name, "seed": seed, "violation": violation,
+        "programs": programs, "crash_points_enumerated": crash_points, "fault_pairs": pair_runs, "programs_fully_enumerated": fully_enumerated}));
+    if let Some(out) = out {
+        std::fs::write(&out, serde_json::to_string(&report).unwrap()).expect("write report");
+    } else {
+        println!("{}", serde_json::to_string_pretty(&report).unwrap());
+    }
+    code
+}
+
+/// Does the case (with its own fault plan) violate `prop`?
+fn fails(case: &Case, opts: &RunOpts, prop: &str) -> bool {
+    match run_case(case, opts) {
+        Outcome::Hang => false,
+        Outcome::Done(r) => r.violations.iter().any(|v| v.props.iter().any(|p| p == prop)),
+    }
+}
+
+/// Greedy shrinking for G4 failures: remove one operation at a time; a candidate is kept if
+/// the same fault plan, or any single crash point of the candidate, still fails.
+fn shrink_g4(mut case: Case, opts: &RunOpts, prop: &str) -> Case {
+    let mut budget = 4000u32;
+    let mut progress = true;
+    while progress && budget > 0 {
+        progress = false;
+        let mut i = case.ops.len();
+        while i > 0 && budget > 0 {
+            i -= 1;
+            let mut cand = case.clone();
+            cand.ops.remove(i);
+            budget = budget.saturating_sub(1);
+            if fails(&cand, opts, prop) {
+                case = cand;
+                progress = true;
+                continue;
+            }
+            if case.faults.len() == 1 {
+                // the fault index may have shifted: look for it among the crash points of `cand`
+                let base = Case { auto: cand.auto, ops: cand.ops.clone(), faults: Vec::new() };
+                if let Outcome::Done(r0) = run_case(&base, opts) {
+                    let kind = case.faults[0].kind;
+                    let n = r0.stats.counts[kind.idx()].min(64);
+                    for k in 0..n {
+                        budget = budget.saturating_sub(1);
+                        let c2 = Case { auto: cand.auto, ops: cand.ops.clone(), faults: vec![Fault { kind, nth: k }] };
+                        if fails(&c2, opts, prop) {
+                            case = c2;
+                            progress = true;
+                            break;
+                        }
+                    }
+                }
+            }
+        }
+    }
+    case
 }
 
 fn cmd_simple(args: &[String], engine: &str) -> i32 {
